@@ -350,7 +350,7 @@ def find_matches(node, sty=None, skip_tracing=True):
             yield n
 
 
-def enum_matches(node, adt, skip_tracing=True):
+def enum_matches(node, adt, skip_tracing=True, outermost=True):
     """`match` expressions written in the source (not loop / ? desugarings) whose scrutinee is (a reference to) `adt`."""
     out = []
     for n in walk(node, skip_tracing):
@@ -363,6 +363,16 @@ def enum_matches(node, adt, skip_tracing=True):
         sty = n.get("sty", "").lstrip("&").replace("mut ", "")
         if sty == adt or sty.startswith(adt + "<"):
             out.append(n)
+    if outermost and len(out) > 1:
+        # a `matches!(x.kind(), K::A(..))` / nested match on the same enum inside an arm of the table is not a second table
+        inner = set()
+        for m in out:
+            for arm in m.get("arms", []):
+                for x in walk(arm.get("body"), skip_tracing):
+                    inner.add(id(x))
+                    if x.get("k") == "if" and "_as_match" in x:
+                        inner.add(id(x["_as_match"]))
+        out = [m for m in out if id(m) not in inner]
     return out
 
 
